@@ -351,6 +351,28 @@ impl Manager for Mgr {
                 }
             }
         }
+        // the other way round: on the paths where the pool lets go of a single object (a rejected
+        // or abandoned unready object, a surplus return, `Object::take`) the model - and the
+        // unchanged code - call `Manager::detach` with the slots mutex released; if it is held
+        // here (and no resize paused in its critical section can be the holder), a detach that
+        // touches the pool dead-locks and one that panics poisons the pool
+        if op < self.sched.n_ops() {
+            let lbl = self.sched.op(op).label;
+            if lbl.ends_with(".detach") {
+                let n = self.sched.n_ops();
+                let other_holds = (0..n).any(|j| {
+                    let l = self.sched.op(j).label;
+                    j != op && (l == "resize.shrink" || l == "resize.grow" || l == "cs-break")
+                });
+                if !other_holds {
+                    if let Some(p) = self.truth.pool.lock().unwrap().as_ref() {
+                        if p.verif_snapshot(|_, _| {}).slots.is_none() {
+                            self.sched.event(format!("atomicity({},locked@{})", op, lbl));
+                        }
+                    }
+                }
+            }
+        }
         self.sched.event(format!("detach({},{})", op, obj.id));
         if DETACH_PANICS.with(|f| f.replace(false)) {
             panic!("scripted panic in Manager::detach");
